@@ -33,6 +33,9 @@ class Cfg:
     kwargs: bool = False  # last dependency passed by keyword
     routes: str = "d"  # how the configuration reaches the DAG: d(ecorators) a(ttribute assignment) c(onfig_from_dict)
     profiling: bool = False  # also explore cfg.TAWAZI_PROFILE_ALL_NODES = True
+    mc_fixed: int = 0  # 0: symbolic
+    distinct_cp: bool = False  # assume pairwise distinct compound priorities; the C06 monitor is then strict
+    debug_leaf: bool = False  # one leaf may be a debug node, RUN_DEBUG_NODES on; the executed set is read off the executor's graph
     monitors: Tuple[str, ...] = ("C02", "C03", "C04", "C05", "C08", "C09", "C14", "C17", "C01")
     known_c08: bool = True
 
@@ -315,6 +318,8 @@ def run_sched(cfg: Cfg, c: Ctx) -> Any:
     seq = {l: (c.bool("seq_" + l) if cfg.sym_seq else False) for l in labels}
     mc = c.int("mc")
     c.assume(mc.z >= 1)
+    if cfg.mc_fixed:
+        c.assume(mc.z == cfg.mc_fixed)
     route = cfg.routes[c.choose(len(cfg.routes), "route")] if len(cfg.routes) > 1 else cfg.routes
     mc0, prio0, seq0 = mc, prio, seq
     if route != "d":
@@ -345,10 +350,16 @@ def run_sched(cfg: Cfg, c: Ctx) -> Any:
         # constant - only dependency-free user nodes that take no argument at all are roots
         c.assume(not alldeps[sel[1]] and sel[1] not in act)  # type: ignore[index]
     exec_set = closure_spec(labels, alldeps, sel)
-    if sel[0] == "root":
-        pass
+    dbg: Optional[str] = None
+    if cfg.debug_leaf:
+        k = c.choose(N + 1, "dbg")
+        if k:
+            dbg = labels[k - 1]
+            c.assume(not desc[dbg])
     cp = {l: (_zi(prio[l]) + z3.Sum([_zi(prio[d]) for d in sorted(desc[l])] + [z3.IntVal(0)])) for l in labels}
 
+    if cfg.distinct_cp:
+        c.assume(z3.Distinct([cp[l] for l in labels]) if len(labels) > 1 else True)
     spec: Dict[str, Any] = dict(labels=labels, alldeps=alldeps, res=res, seq=seq, mc=mc, fail=fail, desc=desc,
                                 exec_set=exec_set, cp=cp, ref_args={}, ref_val={}, active={},
                                 shape_key=(tuple(tuple(alldeps[l]) for l in labels), tuple(res[l] for l in labels), sel, flavour, route))
@@ -364,8 +375,9 @@ def run_sched(cfg: Cfg, c: Ctx) -> Any:
         fn.__name__ = fn.__qualname__ = label
         return fn
 
-    root_takes_input = sel[0] != "root"
-    xns = {l: xn(make_fn(l), priority=prio0[l], is_sequential=seq0[l], resource=Resource(res[l])) for l in labels}
+    # a node that takes the DAG input is neither a root of the id graph nor reachable by the debug rule
+    root_takes_input = sel[0] != "root" and dbg is None
+    xns = {l: xn(make_fn(l), priority=prio0[l], is_sequential=seq0[l], resource=Resource(res[l]), debug=(l == dbg)) for l in labels}
     kwname = "kw"
 
     def call_shape(l: str, x: Any, r: Dict[str, Any]) -> Tuple[List[Any], Dict[str, Any]]:
@@ -393,6 +405,22 @@ def run_sched(cfg: Cfg, c: Ctx) -> Any:
         pipe.config_from_dict({"nodes": {l: {"priority": prio[l], "is_sequential": seq[l]} for l in labels},
                                "max_concurrency": mc})
 
+    from tawazi import cfg as twz_cfg
+
+    saved_run_debug = twz_cfg.RUN_DEBUG_NODES
+    twz_cfg.RUN_DEBUG_NODES = dbg is not None
+    try:
+        call = pipe if sel[0] == "whole" else pipe.executor(**{sel[0] + "_nodes": [sel[1]]})
+    finally:
+        twz_cfg.RUN_DEBUG_NODES = saved_run_debug
+    if dbg is not None:
+        # debug rules aside (C13 owns them): which debug nodes accompany a selection is read off the graph
+        if sel[0] != "whole":
+            exec_set = {l for l in labels if l in call.graph.nodes}
+            spec["exec_set"] = exec_set
+            if dbg in exec_set:
+                c.cover("w_debug_in_subgraph")
+
     # ---- reference: the same program evaluated as plain Python
     X = c.val("x")
     ref: Dict[str, Any] = {}
@@ -416,18 +444,13 @@ def run_sched(cfg: Cfg, c: Ctx) -> Any:
 
     # ---- run the real scheduler in the model environment
     outcome: Tuple[str, Any]
-    from tawazi import cfg as twz_cfg
-
     profiling = bool(cfg.profiling and c.choose(2, "profiling"))
     saved_profiling = twz_cfg.TAWAZI_PROFILE_ALL_NODES
     twz_cfg.TAWAZI_PROFILE_ALL_NODES = profiling
     with E.Patched(world):
         E.watch(world)
+        twz_cfg.RUN_DEBUG_NODES = dbg is not None
         try:
-            if sel[0] == "whole":
-                call = pipe
-            else:
-                call = pipe.executor(**{sel[0] + "_nodes": [sel[1]]})
             if flavour == "a":
                 got = world.drive(call(X))
             else:
@@ -444,6 +467,7 @@ def run_sched(cfg: Cfg, c: Ctx) -> Any:
         finally:
             E.watch(None)
             twz_cfg.TAWAZI_PROFILE_ALL_NODES = saved_profiling
+            twz_cfg.RUN_DEBUG_NODES = saved_run_debug
 
     # ---- end-of-call assertions
     if outcome[0] == "returned":
